@@ -71,11 +71,14 @@ func (propC01) Gen(r *Rng, tier string) *World {
 	w.Cfg = g.C
 	w.Cfg.OptMask = 0
 	w.Cfg.ViaDirect = r.P(0.5)
-	w.Cfg.DirStyle = r.Intn(6)
+	w.Cfg.DirStyle = r.Intn(8)
 	w.Cfg.ViaAPI = r.P(0.4)
 	w.Cfg.Event = []string{"", "", "", "report", "debug", "both"}[r.Intn(6)]
 	w.API = []string{"eval", "eval", "eval", "eval", "evalbool", "oneshot"}[r.Intn(6)]
 	base := Plan{Bind: g.Binding(), CtxDone: r.P(0.1)}
+	if w.API != "oneshot" && len(referencedVars(w.Prog)) == 0 && r.P(0.4) {
+		base.NilCtx, base.CtxDone = true, false // no variable to read: the caller may pass no Ctx at all
+	}
 	w.Calls = append(w.Calls, base)
 	nb := r.Intn(3)
 	for i := 0; i < nb; i++ { // further bindings
